@@ -466,13 +466,22 @@ def run_unit(name, spec, tier):
         sp = primary_span(d, gen)
         fn, loc, stmt = locate(sp, smap, lines)
         clause = ""
+        only = None
         for s in d.get("spans", []):
             if not s.get("is_primary") and s.get("text"):
                 clause = s["text"][0]["text"].strip()
+            # attribution: a contract clause / assertion whose line carries `// [only:Cxx,Cyy]` states
+            # a fact only those properties need; its failure is not reported under other properties
+            if os.path.basename(s.get("file_name", "")) == os.path.basename(gen):
+                for k in range(s["line_start"], s["line_end"] + 1):
+                    if 0 < k <= len(lines):
+                        mo = re.search(r"\[only:([\w,]+)\]", lines[k - 1])
+                        if mo:
+                            only = sorted(set((only or []) + mo.group(1).split(",")))
         res["failures"].append({
             "unit": name, "backend": "verus", "where": fn or "(contract text)", "kind": d["message"],
             "desc": "%s: `%s`%s" % (d["message"], stmt, (" -- clause `%s`" % clause) if clause else ""),
-            "loc": loc, "output": d.get("rendered", ""), "cex": None})
+            "loc": loc, "output": d.get("rendered", ""), "cex": None, "only": only})
     # canaries: every one must FAIL
     def canary_failed_ids(rr):
         cverr, _ = classify(rr["diags"])
